@@ -183,7 +183,7 @@ def run(pid, tier, seed, replay, props, judge, extra_streams=None, rule_extra=''
             for (i, j) in pick:
                 zoo_cases.append({'obs': 'zoo', 'ai': i, 'vi': j, 'stream': 'zoo'})
             for (i, j) in ck.rng.sample(allz, min(len(allz), (600 if tier == 'quick' else 6000))):
-                zoo_cases.append({'obs': ck.rng.choice(['zoo_arg', 'zoo_ret']), 'ai': i, 'vi': j, 'stream': 'zoo-pedantic'})
+                zoo_cases.append({'obs': ck.rng.choice(['zoo_arg', 'zoo_ret', 'zoo_gen']), 'ai': i, 'vi': j, 'stream': 'zoo-pedantic'})
     if extra_streams:
         extra_streams(ck, cases)
     impl = ck.run_impl('w_checker', cases, timeout=1200)
